@@ -44,7 +44,7 @@ ASSUMES = [
     "exact); float32 rounding on real-valued radiometry is outside the model",
     "scipy.ndimage.zoom(order=1) = linear interpolation at k/subpix and binary_dilation with a full w x w "
     "structure = window maximum: modelled, validated by this correspondence (their outputs feed the costs)",
-    "both images have the same size (enforced by the input checks, C17); integer disparity grids",
+    "both images have the same size (enforced by the input checks, C17); integer disparity grids in the model (quarter-pixel grids are run against the independent python oracle of the property only)",
     "zncc: the model and the spec are exact rationals (covariance, variances); the float value is compared "
     "with cov/sqrt(varL*varR) under the bridging tolerance, the NaN pattern and the zero-variance decision "
     "exactly; the 1e-15 relative variance guard of compute_std_raster coincides with 'variance = 0' on "
@@ -181,9 +181,59 @@ def run(ctx):
         mc_fns.run(ctx)
         ctx.rng.setstate(state)
         cases = gen_cases(ctx, 260 if quick else 4000)
+    if ctx.replay_case is None:
+        frac = [mu.fractional_grids(ctx.rng, mu.gen_case(ctx.rng, measure=ctx.rng.choice(SUPPORTED), max_nd=24, small=True))
+                for _ in range(40 if quick else 600)]
+    else:
+        frac = [c for c in cases if c.get("fractional")]
+        cases = [c for c in cases if not c.get("fractional")]
     for start in range(0, len(cases), 200):
         run_chunk(ctx, model, cases[start:start + 200])
+    run_fractional(ctx, frac)
     ctx.stats["model_calls"] = model.calls
+
+
+def run_fractional(ctx, cases):
+    """per-pixel intervals whose bounds are not whole pixels (the grids of the multiscale step after a refinement,
+    float grid files): the model's grids are integers, so these volumes are compared with the independent exact
+    oracle of the property only (harness/mc_util.py: computable / cost_oracle) - 'NaN exactly when ... the disparity
+    lies outside the pixel's [min, max] interval'"""
+    for case in cases:
+        m = case["measure"]
+        ctx.count("fractional_grid_volumes")
+        cv, exc = mu.run_impl(case)
+        if exc is not None:
+            ctx.case(None)
+            ctx.violation("raises_fractional_grids",
+                          f"{m} window {case['window']} subpix {case['subpix']} with quarter-pixel interval grids: "
+                          f"{type(exc).__name__} ({str(exc)[:80]})", case)
+            continue
+        vol = cv["cost_volume"].data
+        ctx.traces += 1
+        ctx.case(("frac", m, case["window"], case["subpix"], case["rows"], case["cols"],
+                  hash(str(case["grids"]) + str(case["left"]))))
+        orc = mu.oracle_volume(case)
+        bad = None
+        if vol.shape != (case["rows"], case["cols"], len(mu.disparities(case))):
+            bad = ("shape", list(vol.shape), len(mu.disparities(case)))
+        else:
+            for r in range(case["rows"]):
+                for c in range(case["cols"]):
+                    for k in range(vol.shape[2]):
+                        if bad is None and not cell_agrees(m, float(vol[r, c, k]), orc[r][c][k]):
+                            bad = (r, c, k, float(vol[r, c, k]), orc[r][c][k])
+        ctx.count("costs_compared", int(vol.size))
+        if bad is not None and bad[0] == "shape":
+            ctx.violation(f"{m}_fractional_grid_axis", f"{m}: disparity axis of {bad[1]} for the interval "
+                          f"{list(mu.case_global_interval(case))} at subpix {case['subpix']}", case)
+        elif bad is not None:
+            r, c, k, f, e = bad
+            D = mu.disparities(case)[k]
+            kind = "nan_pattern" if math.isnan(f) != (e is None) else "value"
+            ctx.violation(f"{m}_{kind}_fractional_grid",
+                          f"{m} window {case['window']} subpix {case['subpix']}: cost at row {r} col {c} disparity "
+                          f"{D / case['subpix']} is {f}; the pixel's interval is [{case['grids'][0][r][c]}, "
+                          f"{case['grids'][1][r][c]}] and the property gives {None if e is None else str(e)}", case)
 
 
 def run_chunk(ctx, model, cases):
